@@ -14,22 +14,190 @@ RULE = ("seeded traces over 1-3 JSON files with ONE root object each (+ nested h
         "default capacity the file is untouched (bytes, inode, mtime, no new temp file) from the moment its object "
         "becomes buffered until the exit that leaves it unbuffered; (c) at that exit the observer equals the model; "
         "(d) exits raise nothing. Small capacities (separate configuration) relax only (b): after every step each "
-        "file holds its previous content or the model's current content (forced flush). Fault kind: forced_flush. "
+        "file holds its previous content or the model's current content (forced flush). Two further configurations: TWIN - the same program also runs on an unbuffered twin "
+        "object of the plain JSON class and every result / the visible content must agree, also for rejected and "
+        "partially applied operations; BIG-CAPACITY - tiny class capacity, outermost buffer_backend(huge), plain contexts "
+        "nested inside: still nothing may be written early. Fault kind: forced_flush, rejected_input. "
         "Non-trivial = a mutator ran while buffered inside >=1 context; distinct = step-shape hashes.")
 ASSUMPTIONS = ["one root object per file (mixed buffering states of several objects on one file are excluded by the "
                "library's own warning; shared state is C06)", "no outside writer (that is C07)"]
 COMPONENTS = {"real": ["synced_collections (working tree)", "tmpfs file system", "os.stat metadata"], "stub": []}
-EXPECT_PROBES = {"quick": ["file_entered_buffer"], "thorough": ["file_entered_buffer", "forced_flush_observed"]}
+EXPECT_PROBES = {"quick": ["file_entered_buffer", "twin_rejected_op", "bigcap_plain_nested"],
+                 "thorough": ["file_entered_buffer", "forced_flush_observed", "twin_rejected_op", "bigcap_plain_nested"]}
 
 
 def make_cfg(rs, tier):
     cfg = _buf.base_cfg(rs, ID)
     cfg["oracles"] = ["backend", "result", "frozen"]
+    r = rs.random()
+    if r < 0.2:
+        # TWIN configuration: the same program also runs on an UNBUFFERED twin (the plain JSON class of the same kind on
+        # another file); results must agree - also for rejected / partially applied operations, whose outcome the
+        # reference model does not define
+        cfg.update(twin=True, nres=1, capmode="huge", forced_flush_possible=False)
+    elif r < 0.35:
+        # BIG-CAPACITY configuration: the class capacity is tiny, every outermost backend context asks for a huge one,
+        # plain contexts nest inside it; nothing may be written before the outermost exit
+        cfg.update(capmode="bigcap", forced_flush_possible=False)
     return cfg
 
 
-setup = _buf.setup
-gen_step = _buf.gen_step
+def setup(w, rg):
+    cfg = w.cfg
+    if cfg.get("twin"):
+        from ..core import lib
+        from ..core.values import gen_value
+        init = gen_value(rg, w.fresh, 2, cfg["kinds"][0], 3)
+        twin_family = "JSONAttr" if lib.load().families[cfg["family"]]["attr"] else "JSON"
+        yield {"t": "new_res", "family": cfg["family"], "kind": cfg["kinds"][0], "init": init}
+        yield {"t": "new_res", "family": twin_family, "kind": cfg["kinds"][0], "init": init}
+        yield {"t": "new_obj", "rid": 0, "wc": cfg["wc"]}
+        yield {"t": "new_obj", "rid": 1, "wc": cfg["wc"]}
+        return
+    yield from _buf.setup(w, rg)
+    if cfg["capmode"] == "bigcap":
+        for k in sorted(set(cfg["kinds"][:cfg["nres"]])):
+            yield {"t": "setcap", "family": cfg["family"], "kind": k, "n": 0 if cfg["strategy"] == "memory" else 1}
+
+
+BIG = 10 ** 9
+
+
+def gen_step(w, rg):
+    cfg = w.cfg
+    if cfg.get("twin"):
+        return gen_twin_step(w, rg)
+    if cfg["capmode"] != "bigcap":
+        return _buf.gen_step(w, rg)
+    # bigcap: contexts only inside an outermost buffer_backend(BIG)
+    from ..engines import seqgen as G
+    if rg.random() < cfg["p_ctx"]:
+        if w.ctx and (len(w.ctx) >= cfg["max_ctx"] or rg.random() < 0.45):
+            return {"t": "exit"}
+        kinds = sorted(set(cfg["kinds"][:cfg["nres"]]))
+        if not w.ctx:
+            w.probe("bigcap_outer_ctx")
+            return {"t": "enter", "ctx": "backend", "family": cfg["family"], "kind": G.pick(rg, kinds), "cap": BIG}
+        outer_kinds = {c["cls"] for c in w.ctx if c["kind"] == "backend"}
+        if rg.random() < 0.5:
+            obs = [o for o in w.objs if o.alive and o.cls in outer_kinds]
+            if obs:
+                return {"t": "enter", "ctx": "obj", "oid": G.pick(rg, obs).oid}
+        k = G.pick(rg, kinds)
+        st = {"t": "enter", "ctx": "backend", "family": cfg["family"], "kind": k}
+        if w.cls_of(cfg["family"], k) not in outer_kinds or rg.random() < 0.4:
+            st["cap"] = BIG
+        else:
+            w.probe("bigcap_plain_nested")
+        return st
+    return _buf.gen_step(w, rg) if False else _op_only(w, rg)
+
+
+def _op_only(w, rg):
+    from ..engines import seqgen as G
+    cfg = w.cfg
+    hs = G.attached_handles(w)
+    if not hs:
+        return None
+    nested = [h for h in hs if h.path]
+    h = G.pick(rg, nested) if nested and rg.random() < 0.4 else G.pick(rg, hs)
+    if rg.random() < 0.15:
+        st = G.gen_navigate_step(rg, w, h)
+        if st:
+            return st
+    return G.gen_op_step(rg, w, h, depth=cfg["depth"], mut_weight=cfg["p_mut"], slices=True)
+
+
+# ---- twin configuration -------------------------------------------------------------------------------------------
+
+BAD_ARGS = {"dict": [("update", [{"$keydict": [["good1", 71], [987654, 1], ["good2", 72]]}]), ("update", [{"g": 73, "bad": {"$obj": "object"}}]),
+                     ("setitem", ["bad", {"$obj": "set"}]), ("reset", [{"$keydict": [["keep", 74], [{"$none": 0}, 1]]}]),
+                     ("setdefault", ["newkey", {"$obj": "complex"}]), ("update_pairs", [[["p1", 75], ["p2"]]])],
+            "list": [("extend", [[76, {"$obj": "object"}]]), ("iadd", [[{"$keydict": [[987654, 1]]}, 77]]), ("append", [{"$obj": "set"}]),
+                     ("reset", [[78, {"$obj": "object"}]]), ("insert", [0, {"$obj": "complex"}]), ("setitem", [{"$slice": [0, 1, None]}, [79, {"$obj": "object"}]])]}
+
+
+def gen_twin_step(w, rg):
+    from ..engines import seqgen as G
+    cfg = w.cfg
+    if not hasattr(w, "twin_of"):
+        w.twin_of = {0: 1}
+    roll = rg.random()
+    if roll < cfg["p_ctx"]:
+        if w.ctx and (len(w.ctx) >= cfg["max_ctx"] or rg.random() < 0.45):
+            return {"t": "exit"}
+        if rg.random() < 0.5:
+            return {"t": "enter", "ctx": "obj", "oid": 0}
+        return {"t": "enter", "ctx": "backend", "family": cfg["family"], "kind": cfg["kinds"][0]}
+    hs = [h for h in G.attached_handles(w) if h.oid == 0 and h.hid in w.twin_of and w.twin_of[h.hid] < len(w.handles)
+          and w.handles[w.twin_of[h.hid]] is not None and w.handles[w.twin_of[h.hid]].state == "attached"]
+    if not hs:
+        return None
+    h = G.pick(rg, hs)
+    if roll < cfg["p_ctx"] + 0.12:
+        name, args = G.pick(rg, BAD_ARGS[h.kind])
+        w.probe("twin_rejected_op")
+        return {"t": "twinbad", "hid": h.hid, "thid": w.twin_of[h.hid], "name": name, "args": args}
+    if rg.random() < 0.15:
+        st = G.gen_navigate_step(rg, w, h)
+    else:
+        st = G.gen_op_step(rg, w, h, depth=cfg["depth"], mut_weight=cfg["p_mut"], slices=True)
+    if st is None or st["name"] == "popitem":   # popitem may legitimately pop different items on the two objects
+        return None
+    return {"t": "twinop", "a": st, "thid": w.twin_of[h.hid]}
+
+
+from ..engines.seqsim import World as _World, Violation as _Violation  # noqa: E402
+from ..core import model as _M  # noqa: E402
+
+
+class W(_World):
+    def st_twinop(self, st):
+        a = st["a"]
+        if not hasattr(self, "twin_of"):
+            self.twin_of = {0: 1}
+        self.st_op(a)
+        b = dict(a, hid=st["thid"])
+        if a.get("keep"):
+            b["hid_new"] = st.get("thid_new")
+        self.st_op(b)
+        if a.get("keep"):
+            st["thid_new"] = b.get("hid_new")
+            if a.get("hid_new") is not None and b.get("hid_new") is not None:
+                self.twin_of[a["hid_new"]] = b["hid_new"]
+        self.probe("twin_ops")
+
+    def st_twinbad(self, st):
+        """An operation whose outcome the model does not define (rejected, possibly partially applied): the buffered
+        object and its unbuffered twin must behave identically."""
+        from ..core.values import same, deep, jsonable
+        h0, h1 = self.handles[st["hid"]], self.handles[st["thid"]]
+        args0, args1 = _M.dec(st["args"], None), _M.dec(st["args"], None)
+        r0 = _M.result_plain(st["name"], self.lib_op(h0.node, st["name"], args0), self.SC)
+        r1 = _M.result_plain(st["name"], self.lib_op(h1.node, st["name"], args1), self.SC)
+        what = f"{st['name']}{jsonable(st['args'])} at {h0.path}"
+        if isinstance(r0, _M.Raised) != isinstance(r1, _M.Raised) or (isinstance(r0, _M.Raised) and r0.cls is not r1.cls):
+            raise _Violation("buffered!=unbuffered", f"{what}: buffered object gives {r0!r}, unbuffered twin {r1!r}")
+        ob0, ob1 = self.objs[h0.oid], self.objs[h1.oid]
+        c0 = _M.result_plain("call", self.lib_op(ob0.o, "call", []), self.SC)
+        c1 = _M.result_plain("call", self.lib_op(ob1.o, "call", []), self.SC)
+        if isinstance(c0, _M.Raised) or isinstance(c1, _M.Raised) or not same(c0, c1):
+            raise _Violation("buffered!=unbuffered", f"after {what}: buffered object shows {jsonable(c0)!r}, unbuffered twin shows {jsonable(c1)!r}")
+        res0, res1 = self.res[ob0.rid], self.res[ob1.rid]
+        res0.model, res1.model = deep(c1), deep(c1)
+        res1.disk, res1.exists, res0.exists = deep(c1), True, True
+        if self.is_buffered(ob0):
+            self.buffered_touch(res0, ob0, True, True)
+        else:
+            res0.disk = deep(c1)
+        for h in self.handles:
+            if h is not None and h.path and h.state == "attached":
+                h.state = "dropped"
+        self.check_frozen(f"rejected op {st['name']}")
+        self.check_backend(what="after a rejected operation (twin configuration)")
+
+
+WorldClass = W
 
 
 def signature(w, cfg, steps):
